@@ -117,7 +117,8 @@ def run_property(prop, tier, seed, only=None, jobs=None, budget_scale=1.0):
     shutil.rmtree(os.path.join(REPLAY_DIR, prop), ignore_errors=True)
     obligations = [ob for ob in load_obligations(prop) if tier in ob.tiers]
     if only:
-        obligations = [ob for ob in obligations if any(o in ob.name for o in only)]
+        # --only <substring>, or --only =<exact obligation name>
+        obligations = [ob for ob in obligations if any((o[1:] == ob.name) if o.startswith("=") else (o in ob.name) for o in only)]
     known = load_known(prop)
     open_known = [k for k in known if str(k.get("status", "open")).startswith("open")]
     joblist = []
